@@ -285,21 +285,25 @@ fn gen_duration(t: &mut Tape, g: &Gates) -> Lit {
         }
         let mut part_ns: Option<i128> = (v as i128).checked_mul(f).filter(|_| v < (1u128 << 100));
         if last && t.ratio(1, 3) {
-            let fd = 1 + t.below(3);
+            // 1..3 digits usually, up to 15 (the lexer's precision) sometimes
+            let fd = if t.ratio(1, 3) { 4 + t.below(12) } else { 1 + t.below(3) };
             let allowed = match name {
                 "d" | "h" | "m" => g.want("DURATION_FRACTION_DHM"),
                 _ => g.want("DURATION_FRACTION_S_MS"),
             };
             if allowed {
-                let mut fr = String::new();
-                for _ in 0..fd {
-                    fr.push((b'0' + t.below(10) as u8) as char);
-                }
-                num = format!("{}.{}", num, fr);
-                // exact: fr / 10^fd * f   (f is divisible by 1000 for every unit)
-                let frn: i128 = fr.parse().unwrap();
+                // a fraction whose value is a whole number of nanoseconds: fr * f must be a
+                // multiple of 10^fd, i.e. fr a multiple of 10^fd / gcd(f, 10^fd)
                 let scale = 10i128.pow(fd as u32);
-                let add = frn * f / scale; // exact because f % 1000 == 0 and fd <= 3
+                let g = gcd(f, scale);
+                let step = scale / g;
+                let frn: i128 = step * (t.u64() as i128 % g);
+                let fr = format!("{:0width$}", frn, width = fd);
+                num = format!("{}.{}", num, fr);
+                let add = frn * f / scale;
+                if fd > 3 {
+                    class.push_str(".long");
+                }
                 part_ns = part_ns.and_then(|p| p.checked_add(add));
                 class.push_str(&format!(".frac-{}", name));
             }
@@ -347,6 +351,14 @@ fn gen_duration(t: &mut Tape, g: &Gates) -> Lit {
     };
     let embed = if t.ratio(1, 6) { Embed::TaskInterval } else { Embed::Init };
     Lit { text: full, expect, family: "duration", class, embed }
+}
+
+fn gcd(a: i128, b: i128) -> i128 {
+    if b == 0 {
+        a
+    } else {
+        gcd(b, a % b)
+    }
 }
 
 fn days_in_month(y: i32, m: u8) -> u8 {
